@@ -355,7 +355,7 @@ func ZZC18Loop() {
 func ZZC18Locks() {
 	a := zzAgent()
 	a.topology.Update(zzPeer(0))
-	rt.GuardedBy(&a.topology.m, &a.topology.Mutex, "Topology.m")
+	rt.GuardedBy(&a.topology.m, a.topology, "Topology.m") // the lock is the mutex embedded in the topology
 	switch rt.Choose("op", 4) {
 	case 0:
 		a.topology.Update(zzPeer(1))
@@ -388,6 +388,53 @@ func ZZC18LocksRace() {
 			a.topology.Each(1, &ex)
 		}
 	}()
+	wg.Wait()
+}
+
+// ZZC18Concurrent: an agent runs several sends at once (Agent.sender starts up to MaxSenders
+// goroutines), each making a routing decision, while membership events arrive. Two such
+// activities must not write a common memory cell unless both hold a common lock exclusively.
+func ZZC18Concurrent() {
+	a := zzAgent()
+	for i := 0; i < 4; i++ {
+		a.topology.Update(zzPeer(i))
+	}
+	a.topology.Update(&Peer{Name: "q0", Meta: Meta{Role: zzRoles[1]}})
+	a.topology.Update(&Peer{Name: "q1", Meta: Meta{Role: zzRoles[1]}})
+	src := &Peer{Name: "p2"}
+	switch rt.Choose("pair", 3) {
+	case 0:
+		rt.SharedWrites(func() { a.route(src) }, func() { a.route(a.Self) }, "concurrent-routing")
+	case 1:
+		rt.SharedWrites(func() { a.route(src) }, func() { a.topology.Update(&Peer{Name: "q2", Meta: Meta{Role: zzRoles[1]}}) }, "routing-vs-join")
+	case 2:
+		rt.SharedWrites(func() { a.route(src) }, func() { a.topology.Delete(&Peer{Name: "q1", Meta: Meta{Role: zzRoles[1]}}) }, "routing-vs-leave")
+	}
+}
+
+// ZZC18ConcurrentRace: native witness for a finding of ZZC18Concurrent (meaningful in a -race build).
+func ZZC18ConcurrentRace() {
+	a := &Agent{Self: &Peer{Name: "self", Meta: Meta{Role: "auditor"}}, topology: NewTopology(), log: log.L()}
+	for i := 0; i < 6; i++ {
+		a.topology.Update(&Peer{Name: fmt.Sprintf("m%d", i), Meta: Meta{Role: "monitor"}})
+		a.topology.Update(&Peer{Name: fmt.Sprintf("u%d", i), Meta: Meta{Role: "publisher"}})
+	}
+	var wg sync.WaitGroup
+	for g := 0; g < 4; g++ {
+		wg.Add(1)
+		go func(g int) {
+			defer wg.Done()
+			for i := 0; i < 300; i++ {
+				if g == 3 {
+					p := &Peer{Name: "flap", Meta: Meta{Role: "monitor"}}
+					a.topology.Update(p)
+					a.topology.Delete(p)
+					continue
+				}
+				a.route(a.Self)
+			}
+		}(g)
+	}
 	wg.Wait()
 }
 
